@@ -1,7 +1,12 @@
 import Prism.Proofs.C16
+import Prism.Proofs.C16Date
 
 #print axioms Prism.Icc.C16_header_fields
 #print axioms Prism.Icc.C16_attributes_is_be64
 #print axioms Prism.Icc.C16_flag_bits
 #print axioms Prism.Icc.C16_version_string
 #print axioms Prism.Icc.C16_bad_signature_rejected
+#print axioms Prism.Icc.C16_epoch
+#print axioms Prism.Icc.C16_month_step
+#print axioms Prism.Icc.C16_year_step
+#print axioms Prism.Icc.C16_created_at_linear
